@@ -346,10 +346,12 @@ func runMw(fields []string) string {
 		return o
 	}
 	var oracle []string
+	var items []string
+	// before the first route is registered: the 404 of an empty router runs the same no-route chain
+	items = append(items, mwServe(r, "GET", "/zzz", false))
 	if _, err := r.Handle("GET", "/a", mwRouteHandler, routeOpts(ownA)...); err != nil {
 		return "I=handle-error\tO=Handle failed: " + err.Error()
 	}
-	var items []string
 	items = append(items, mwServe(r, "GET", "/a", false))
 	items = append(items, mwServe(r, "GET", "/a", true))
 	items = append(items, mwLookupRun(r, "/a", func(rt *fox.Route, c fox.Context) { rt.Handle(c) }))
